@@ -972,7 +972,7 @@ impl Property for P14 {
                 items.push(WKind::Fail(if r.chance(1, 2) { 0 } else { r.range(1, 200) as u32 }));
             } else if en_poison && r.chance(1, 4) {
                 match r.below(4) {
-                    0 => items.push(WKind::Val(ValSpec { ty: if r.chance(1, 6) { Ty::Empty } else { *r.pick(IO_TYS) }, size, seed: r.next_u64() })),
+                    0 => items.push(WKind::Val(ValSpec { ty: if r.chance(1, 6) { Ty::Empty } else if r.chance(1, 3) { Ty::Ticket } else { *r.pick(IO_TYS) }, size, seed: r.next_u64() })),
                     1 => items.push(WKind::Raw { declared: 0, body: vec![] }),
                     2 => {
                         // complete frame, truncated or extended CBOR inside
